@@ -1,2 +1,3 @@
 import AsphaltModel.Basic
 import AsphaltModel.Config
+import AsphaltModel.Context
